@@ -131,7 +131,30 @@ func main() {
 	for i, s := range specs {
 		fmt.Fprintf(w, "# scenario %s\n", s)
 		w.Write(results[i].out)
-		if results[i].code != 0 {
+		// race detector reports (only in a -race build): one event per report, with the two access sites
+		for _, rep := range strings.Split(string(results[i].stderr), "WARNING: DATA RACE")[1:] {
+			var sites []string
+			lines := strings.Split(rep, "\n")
+			for k, l := range lines {
+				t := strings.TrimSpace(l)
+				if (strings.HasPrefix(t, "Write at") || strings.HasPrefix(t, "Read at") || strings.HasPrefix(t, "Previous write at") || strings.HasPrefix(t, "Previous read at")) && k+2 < len(lines) {
+					fn := strings.TrimSpace(lines[k+1])
+					loc := strings.TrimSpace(lines[k+2])
+					if j := strings.LastIndex(loc, "/"); j >= 0 {
+						loc = loc[j+1:]
+					}
+					if j := strings.Index(loc, " "); j >= 0 {
+						loc = loc[:j]
+					}
+					if j := strings.LastIndex(fn, "/"); j >= 0 {
+						fn = fn[j+1:]
+					}
+					sites = append(sites, strings.Fields(t)[0]+"@"+strings.TrimSuffix(fn, "()")+"@"+loc)
+				}
+			}
+			fmt.Fprintf(w, "999998 0 - race %s\n", strings.Join(sites, ";"))
+		}
+		if results[i].code != 0 && !strings.Contains(string(results[i].stderr), "WARNING: DATA RACE") {
 			// the child died: keep the panic headline for the replay
 			head := ""
 			for _, l := range strings.Split(string(results[i].stderr), "\n") {
